@@ -179,6 +179,14 @@ func TestReplay(t *testing.T) {
 	if e != nil || p != nil {
 		hx.Fail(t, "Replay", "ll", x, "parse/print of the replay program fails: %v %s", e, p)
 	}
+	if i := strings.Index(x, "expected output: "); i >= 0 {
+		// an executable program (ExecutedPrograms): the library's print of it must still execute to the recorded output
+		want := x[i+len("expected output: "):]
+		want = want[:strings.IndexByte(want, '\n')]
+		if r, code := llvmx.Lli(y); !r.Crashed && (!r.OK || oneLine(r.Out) != want) {
+			hx.Fail(t, "Replay", "ll", x, "executing the library's print of the program gives %q (exit %d), expected %q", oneLine(r.Out), code, want)
+		}
+	}
 	rx, ry := llvmx.Canon(x), llvmx.Canon(y)
 	if rx.OK && (!ry.OK || llvmx.Normalize(rx.Out) != llvmx.Normalize(ry.Out)) {
 		hx.Fail(t, "Replay", "ll", x, "replay program is not preserved: %s", fmt.Sprint(firstLine(ry.Err)))
